@@ -1122,8 +1122,10 @@ def _check_string_attrs(ctx, prog, W, imp_ci):
     if [(k, g) for _, k, g in _bytes_only_reads(ex)] != [("N", False), ("N", True)]:
         raise AnalysisError("R-C20-10 built-in example not matched")
     n = 0
-    for name, defs in imp_ci.methods.items():
-        fi = defs[-1]
+    # the importer's methods and the private module-level functions next to it (a closure may have been moved there)
+    fis = [defs[-1] for defs in imp_ci.methods.values()] + \
+        [f_ for f_ in prog.functions.values() if f_.module is imp_ci.module and f_.cls is None and f_.parent is None]
+    for fi in fis:
         for c, key, guarded in _bytes_only_reads(fi.node):
             n += 1
             wr = [r for r in W.records if r["kind"] == "write_attr" and r["key"] == key and r.get("value") is not None]
